@@ -24,6 +24,23 @@ func main() {
 		for _, id := range fw.IDs() {
 			fmt.Println(id)
 		}
+	case "cases":
+		// prints the case list of a check (debugging aid): vcheck cases <id> <tier>
+		if len(os.Args) < 4 {
+			usage()
+		}
+		p := fw.Get(os.Args[2])
+		if p == nil {
+			usage()
+		}
+		seed := int64(1)
+		if s := os.Getenv("VERIF_SEED"); s != "" {
+			fmt.Sscan(s, &seed)
+		}
+		for _, c := range p.Gen(os.Args[3], seed) {
+			b, _ := json.Marshal(c)
+			fmt.Println(string(b))
+		}
 	case "run":
 		if len(os.Args) < 4 {
 			usage()
